@@ -273,8 +273,12 @@ def gen_case(world, tier, prop):
       view_ = m.view()
       idxs_ = list(range(*rk.indices(n)))
       mode_ = rng.random()
+      tail_only = bool(m.sv.va) and (min(idxs_) if idxs_ else rk.indices(n)[0]) >= m.sv.P
       for j in range(k):
         e = None
+        if tail_only and rng.random() < 0.06:
+          vs.append({'novalue': 1})    # the sentinel itself as a *args value
+          continue
         if mode_ < 0.2 and j < len(idxs_) and rng.random() < 0.6:
           e = g.equalish(view_[idxs_[j]], mk)    # equal to what the slot holds
         elif mode_ < 0.3 and vs and isinstance(vs[-1], dict) and 'id' in vs[-1]:
